@@ -39,7 +39,7 @@ def prepare():
 
 
 def draw_cfg(st, prop="C03"):
-    world = ["seq", "async"][st.weighted([70, 30], "world")]
+    world = ["seq", "async", "threads"][st.weighted([65, 25, 10], "world")]
     cfg = {
         "world": world,
         "max_ops": [10, 25, 50][st.choose(3, "size")],
@@ -67,6 +67,17 @@ def draw_cfg(st, prop="C03"):
         cfg["spawn_kinds"] = ["task"]
         cfg["p_cancel"] = [0.5, 0.2, 0.9][st.choose(3, "p_cancel")]
         w_ops = [4, 6, 1, 2, 2, 4, 3]
+    if world == "threads":
+        # the extractor registry is process-wide: actions failing in several threads at once
+        cfg["n_actors"] = 2 + st.choose(2, "actors")
+        cfg["p_switch"] = [0.1, 0.3][st.choose(2, "p_switch")]
+        cfg["gran"] = "line"
+        cfg["traced"] = ["_action.py", "_errors.py", "_traceback.py"]
+        cfg["spawn_kinds"] = ["thread"]
+        cfg["w_plain_gen"] = 0
+        cfg["w_xreg"] = 0
+        w_ops = [4, 6, 1, 2, 3, 1, 1]
+        cfg["max_ops"] = min(cfg["max_ops"], 25)
     cfg["w_ops"] = w_ops
     # extractor registrations
     ex = []
